@@ -28,7 +28,7 @@ Definition raw_target (e : env) (url : str) : res (option str) :=
               | Exc ValueError => Ok None
               | Exc x => Exc x
               end
-            else if contains (lit "youtube.com/redirect?") url then Ok (Some (lit "https://" ++ pt))
+            else if contains (lit "youtube.com/redirect?") (lower url) then Ok (Some (lit "https://" ++ pt))
             else Ok None
       end
   end.
